@@ -11,24 +11,24 @@ From OIDC Require Import Lib C05_Model C05_spec C05_proofs.
 (* a client that is not public obtains nothing, on any endpoint that needs authentication,
    without its exact secret or a valid assertion - whatever else the request carries (a blank,
    padded, re-cased, empty or plain wrong secret, in the header, the form or both) *)
-Lemma not_public_needs_credential : forall r e c rg p g pl pv,
+Lemma not_public_needs_credential : forall r e c rg p g pl pv ar,
   r_meth rg <> MNone -> presents_right_secret p = false -> presents_ok_assertion p = false ->
   e <> EDeviceAuthz -> g <> GBearer ->
-  success (model (mkInput r e c rg p g pl pv)) = false.
+  success (model (mkInput r e c rg p g pl pv ar)) = false.
 Proof.
-  intros r e c rg p g pl pv Hm Hp Ha He Hgb.
+  intros r e c rg p g pl pv ar Hm Hp Ha He Hgb.
   assert (Hno : names_other p = false) by (destruct p; cbn in *; congruence).
-  destruct (success (model (mkInput r e c rg p g pl pv))) eqn:Hs; [|reflexivity].
-  assert (Hcv : forall b, cred_valid c rg p b = false).
-  { intro b. unfold cred_valid. rewrite Hp, Ha.
+  destruct (success (model (mkInput r e c rg p g pl pv ar))) eqn:Hs; [|reflexivity].
+  assert (Hcv : forall b, cred_valid_lax c rg p b = false).
+  { intro b. unfold cred_valid_lax. rewrite Hp, Ha.
     destruct (r_meth rg); try congruence; cbn; now rewrite andb_false_r. }
-  destruct (known_gap (mkInput r e c rg p g pl pv)) eqn:Hg.
+  destruct (known_gap (mkInput r e c rg p g pl pv ar)) eqn:Hg.
   - unfold known_gap in Hg; cbn [i_router i_endpoint i_grant i_reg] in Hg.
     destruct r, e, g; try discriminate Hg. apply negb_true_iff in Hg.
-    destruct (token_gap c rg p pl pv Hg Hno Hs) as [_ Hc]. rewrite Hcv in Hc. discriminate Hc.
-  - pose proof (justified_model _ Hg Hno Hs) as Hj. unfold justified in Hj; cbn [i_endpoint i_cfg i_reg i_pres i_grant] in Hj.
+    destruct (token_gap_lax c rg p pl pv ar Hg Hno Hs) as [_ Hc]. rewrite Hcv in Hc. discriminate Hc.
+  - pose proof (justified_lax_model _ Hg Hno Hs) as Hj. unfold justified_lax in Hj; cbn [i_endpoint i_cfg i_reg i_pres i_grant] in Hj.
     destruct e; try congruence.
-    + unfold token_justified in Hj. rewrite Hcv in Hj.
+    + unfold token_justified_lax in Hj. rewrite Hcv in Hj.
       destruct g; try congruence; rewrite ?andb_false_r in Hj; discriminate Hj.
     + unfold introspect_justified, authenticated in Hj. rewrite Hp, Ha in Hj.
       rewrite ?andb_false_r in Hj. discriminate Hj.
@@ -39,21 +39,21 @@ Qed.
 (* on the endpoints and grants that never admit a public client (introspection, token exchange,
    client_credentials) that holds for EVERY client: in particular the white-space-only secret
    does not stand in for the empty stored secret of a public / private_key_jwt client *)
-Lemma no_credential_no_authentication : forall r e c rg p g pl pv,
+Lemma no_credential_no_authentication : forall r e c rg p g pl pv ar,
   presents_right_secret p = false -> presents_ok_assertion p = false ->
   e = EIntrospect \/ (e = EToken /\ (g = GTE \/ g = GCC)) ->
-  success (model (mkInput r e c rg p g pl pv)) = false.
+  success (model (mkInput r e c rg p g pl pv ar)) = false.
 Proof.
-  intros r e c rg p g pl pv Hp Ha He.
-  destruct (success (model (mkInput r e c rg p g pl pv))) eqn:Hs; [|reflexivity].
+  intros r e c rg p g pl pv ar Hp Ha He.
+  destruct (success (model (mkInput r e c rg p g pl pv ar))) eqn:Hs; [|reflexivity].
   assert (Hno : names_other p = false) by (destruct p; cbn in *; congruence).
   destruct He as [->|[-> Hg]].
-  - pose proof (introspect_statement r c rg p g pl pv Hno Hs) as H.
+  - pose proof (introspect_statement r c rg p g pl pv ar Hno Hs) as H.
     unfold authenticated in H. rewrite Hp, Ha, !andb_false_r in H. destruct (r_known rg); discriminate H.
-  - assert (Hj : token_justified c rg p g = true).
-    { apply (token_partial r c rg p g pl pv); [|exact Hno|exact Hs].
+  - assert (Hj : token_justified_lax c rg p g = true).
+    { apply (token_partial_lax r c rg p g pl pv ar); [|exact Hno|exact Hs].
       intros [_ [H2 _]]. destruct Hg; congruence. }
-    unfold token_justified, cred_valid in Hj. rewrite Hp, Ha in Hj.
+    unfold token_justified_lax, cred_valid_lax in Hj. rewrite Hp, Ha in Hj.
     destruct Hg; subst g; destruct (r_meth rg); cbn in Hj; rewrite ?andb_false_r in Hj; discriminate Hj.
 Qed.
 
@@ -77,20 +77,20 @@ Qed.
 (* a near miss of X's id is nobody's id: with X's exact secret, any other secret or none, in the
    header or the form, it obtains nothing on any endpoint, for any registration of X - also not
    what a public X gets for naming itself.  (With the jwt-bearer grant the near miss is the issuer of the grant assertion.) *)
-Lemma near_id_refused : forall r e c rg sl s g pl pv,
-  success (model (mkInput r e c rg (PNearId sl s) g pl pv)) = false.
+Lemma near_id_refused : forall r e c rg sl s g pl pv ar,
+  success (model (mkInput r e c rg (PNearId sl s) g pl pv ar)) = false.
 Proof.
-  intros r e c rg sl s g pl pv.
-  destruct (success (model (mkInput r e c rg (PNearId sl s) g pl pv))) eqn:Hs; [|reflexivity].
-  assert (Hcv : forall b, cred_valid c rg (PNearId sl s) b = false).
-  { intro b. unfold cred_valid. destruct (r_meth rg); cbn; now rewrite ?andb_false_r. }
-  destruct (known_gap (mkInput r e c rg (PNearId sl s) g pl pv)) eqn:Hg.
+  intros r e c rg sl s g pl pv ar.
+  destruct (success (model (mkInput r e c rg (PNearId sl s) g pl pv ar))) eqn:Hs; [|reflexivity].
+  assert (Hcv : forall b, cred_valid_lax c rg (PNearId sl s) b = false).
+  { intro b. unfold cred_valid_lax. destruct (r_meth rg); cbn; now rewrite ?andb_false_r. }
+  destruct (known_gap (mkInput r e c rg (PNearId sl s) g pl pv ar)) eqn:Hg.
   - unfold known_gap in Hg; cbn [i_router i_endpoint i_grant i_reg] in Hg.
     destruct r, e, g; try discriminate Hg. apply negb_true_iff in Hg.
-    destruct (token_gap c rg (PNearId sl s) pl pv Hg eq_refl Hs) as [_ Hc]. rewrite Hcv in Hc. discriminate Hc.
-  - pose proof (justified_model _ Hg eq_refl Hs) as Hj. unfold justified in Hj; cbn [i_endpoint i_cfg i_reg i_pres i_grant] in Hj.
+    destruct (token_gap_lax c rg (PNearId sl s) pl pv ar Hg eq_refl Hs) as [_ Hc]. rewrite Hcv in Hc. discriminate Hc.
+  - pose proof (justified_lax_model _ Hg eq_refl Hs) as Hj. unfold justified_lax in Hj; cbn [i_endpoint i_cfg i_reg i_pres i_grant] in Hj.
     destruct e.
-    + unfold token_justified in Hj. rewrite Hcv in Hj.
+    + unfold token_justified_lax in Hj. rewrite Hcv in Hj.
       destruct g; cbn in Hj; rewrite ?andb_false_r in Hj; discriminate Hj.
     + unfold introspect_justified, authenticated in Hj. cbn in Hj. rewrite ?andb_false_r in Hj. discriminate Hj.
     + unfold revoke_justified, authenticated in Hj. cbn in Hj. rewrite ?andb_false_r in Hj. discriminate Hj.
@@ -109,15 +109,15 @@ Example near_miss_nonvacuous :
   let pk := mkReg true MPKJWT AWeb all_grants true in
   let bas := mkReg true MBasic AWeb all_grants true in
   (* the inputs of seeded regression C05-I: blank Basic password, secretless client *)
-  model (mkInput RProvider EIntrospect all_on pub (PBasic SBlank true) GMissing std_pl NoPrev) = ORes S4 ENotJSON false false WNone
-  /\ model (mkInput RProvider EToken all_on pk (PBasic SBlank false) GDevice std_pl NoPrev) = ORes S4 EUnauthorizedClient false false WNone
-  /\ model (mkInput RLegacy EIntrospect all_on pub (PBasic SBlank false) GMissing std_pl NoPrev) = ORes S4 EUnauthorizedClient false false WNone
+  model (mkInput RProvider EIntrospect all_on pub (PBasic SBlank true) GMissing std_pl NoPrev ArtOk) = ORes S4 ENotJSON false false WNone
+  /\ model (mkInput RProvider EToken all_on pk (PBasic SBlank false) GDevice std_pl NoPrev ArtOk) = ORes S4 EUnauthorizedClient false false WNone
+  /\ model (mkInput RLegacy EIntrospect all_on pub (PBasic SBlank false) GMissing std_pl NoPrev ArtOk) = ORes S4 EUnauthorizedClient false false WNone
   (* a padded right secret is refused where the exact one is accepted *)
-  /\ model (mkInput RLegacy EToken all_on bas (PBasic SNear false) GCode std_pl NoPrev) = ORes S4 EInvalidClient false false WNone
-  /\ success (model (mkInput RLegacy EToken all_on bas (PBasic SRight false) GCode std_pl NoPrev)) = true
+  /\ model (mkInput RLegacy EToken all_on bas (PBasic SNear false) GCode std_pl NoPrev ArtOk) = ORes S4 EInvalidClient false false WNone
+  /\ success (model (mkInput RLegacy EToken all_on bas (PBasic SRight false) GCode std_pl NoPrev ArtOk)) = true
   (* a public client is served for its exact id only *)
-  /\ success (model (mkInput RProvider EToken all_on pub PIdOnly GCode std_pl NoPrev)) = true
-  /\ model (mkInput RProvider EToken all_on pub (PNearId IdForm SEmpty) GCode std_pl NoPrev) = ORes S4 EInvalidClient false false WNone
+  /\ success (model (mkInput RProvider EToken all_on pub PIdOnly GCode std_pl NoPrev ArtOk)) = true
+  /\ model (mkInput RProvider EToken all_on pub (PNearId IdForm SEmpty) GCode std_pl NoPrev ArtOk) = ORes S4 EInvalidClient false false WNone
   /\ only_wrong_secrets (PBoth SBlank SNear) = true.
 Proof. vm_compute. repeat split; reflexivity. Qed.
 
@@ -127,21 +127,21 @@ Proof. vm_compute. repeat split; reflexivity. Qed.
    client_secret_jwt, tls_client_auth, an unknown string, a case variant) is held to its secret:
    no tokens without the exact secret, on either router, for any grant that reads a client
    credential - in particular not for a bare client_id on the device_code grant *)
-Lemma other_method_needs_secret : forall r c rg p g pl pv,
+Lemma other_method_needs_secret : forall r c rg p g pl pv ar,
   r_meth rg = MOther -> presents_right_secret p = false -> g <> GBearer ->
-  success (model (mkInput r EToken c rg p g pl pv)) = false.
+  success (model (mkInput r EToken c rg p g pl pv ar)) = false.
 Proof.
-  intros r c rg p g pl pv Hm Hp Hgb.
+  intros r c rg p g pl pv ar Hm Hp Hgb.
   assert (Hno : names_other p = false) by (destruct p; cbn in *; congruence).
-  destruct (success (model (mkInput r EToken c rg p g pl pv))) eqn:Hs; [|reflexivity].
-  assert (Hcv : forall b, cred_valid c rg p b = false).
-  { intro b. unfold cred_valid. rewrite Hm, Hp. now rewrite andb_false_r. }
-  destruct (known_gap (mkInput r EToken c rg p g pl pv)) eqn:Hg.
+  destruct (success (model (mkInput r EToken c rg p g pl pv ar))) eqn:Hs; [|reflexivity].
+  assert (Hcv : forall b, cred_valid_lax c rg p b = false).
+  { intro b. unfold cred_valid_lax. rewrite Hm, Hp. now rewrite andb_false_r. }
+  destruct (known_gap (mkInput r EToken c rg p g pl pv ar)) eqn:Hg.
   - unfold known_gap in Hg; cbn [i_router i_endpoint i_grant i_reg] in Hg.
     destruct r, g; try discriminate Hg. apply negb_true_iff in Hg.
-    destruct (token_gap c rg p pl pv Hg Hno Hs) as [_ Hc]. rewrite Hcv in Hc. discriminate Hc.
-  - pose proof (token_success_justified (mkInput r EToken c rg p g pl pv) eq_refl Hg Hno Hs) as Hj.
-    cbn [i_cfg i_reg i_pres i_grant] in Hj. unfold token_justified in Hj. rewrite Hcv in Hj.
+    destruct (token_gap_lax c rg p pl pv ar Hg Hno Hs) as [_ Hc]. rewrite Hcv in Hc. discriminate Hc.
+  - pose proof (token_success_justified_lax (mkInput r EToken c rg p g pl pv ar) eq_refl Hg Hno Hs) as Hj.
+    cbn [i_cfg i_reg i_pres i_grant] in Hj. unfold token_justified_lax in Hj. rewrite Hcv in Hj.
     destruct g; try congruence; rewrite ?andb_false_r in Hj; discriminate Hj.
 Qed.
 
@@ -154,14 +154,14 @@ Definition carries_assertion (p : pres) : bool :=
   | PAssert _ | PAssertId _ | PAssertNoType | PAssertWrongType | PXAssert _ | PNearId IdAssert _ | PXSub _ => true
   | _ => false
   end.
-Lemma bare_provider_assertion_refused : forall e c rg p g pl pv,
+Lemma bare_provider_assertion_refused : forall e c rg p g pl pv ar,
   c_jp c = false -> carries_assertion p = true -> e = EIntrospect \/ e = EToken ->
-  success (model (mkInput RLegacy e c rg p g pl pv)) = false.
+  success (model (mkInput RLegacy e c rg p g pl pv ar)) = false.
 Proof.
-  intros e c rg p g pl pv Hc Hp He.
+  intros e c rg p g pl pv ar Hc Hp He.
   destruct c as [fpost fpk fref ccc cte cdev cjp csub]; cbn in Hc; subst cjp.
   destruct pl as [gp cp ap]; destruct rg as [known meth app gs key].
-  unfold model; cbn [i_endpoint i_cfg i_reg i_pres i_grant i_router i_pl i_prev].
+  unfold model; cbn [i_endpoint i_cfg i_reg i_pres i_grant i_router i_pl i_prev i_art].
   destruct p as [| |? ?| |?|?|?| | | |? ?|?|?|?|?|?|[] ?|?]; try discriminate Hp; clear Hp.
   all: destruct He as [->| ->]; [|destruct g]; cbn; split_goal.
 Qed.
@@ -171,42 +171,130 @@ Example round6_nonvacuous :
   let pub := mkReg true MNone ANative all_grants false in
   let bare := mkCfg true true true true true true false false in
   (* seeded regression C05-K: bare client_id, method outside the constants, device_code grant *)
-  model (mkInput RProvider EToken all_on oth PIdOnly GDevice std_pl NoPrev) = ORes S4 EInvalidClient false false WNone
-  /\ success (model (mkInput RProvider EToken all_on oth (PBasic SRight false) GDevice std_pl NoPrev)) = true
+  model (mkInput RProvider EToken all_on oth PIdOnly GDevice std_pl NoPrev ArtOk) = ORes S4 EInvalidClient false false WNone
+  /\ success (model (mkInput RProvider EToken all_on oth (PBasic SRight false) GDevice std_pl NoPrev ArtOk)) = true
   (* seeded regression C05-L: junk assertion next to the id of a secretless client *)
-  /\ model (mkInput RLegacy EIntrospect bare pub (PAssertId AJunk) GMissing std_pl NoPrev) = ORes S4 EInvalidClient false false WNone
-  /\ model (mkInput RLegacy EToken bare (mkReg true MPKJWT AWeb all_grants true) (PAssert AOk) GCode std_pl NoPrev) = ORes S4 EInvalidClient false false WNone
-  /\ success (model (mkInput RLegacy EToken all_on (mkReg true MPKJWT AWeb all_grants true) (PAssert AOk) GCode std_pl NoPrev)) = true.
+  /\ model (mkInput RLegacy EIntrospect bare pub (PAssertId AJunk) GMissing std_pl NoPrev ArtOk) = ORes S4 EInvalidClient false false WNone
+  /\ model (mkInput RLegacy EToken bare (mkReg true MPKJWT AWeb all_grants true) (PAssert AOk) GCode std_pl NoPrev ArtOk) = ORes S4 EInvalidClient false false WNone
+  /\ success (model (mkInput RLegacy EToken all_on (mkReg true MPKJWT AWeb all_grants true) (PAssert AOk) GCode std_pl NoPrev ArtOk)) = true.
 Proof. vm_compute. repeat split; reflexivity. Qed.
 
 (* ---------------- round 7: JWT profile verifier options (custom SubjectCheck) *)
 (* a client assertion issued and signed by X whose subject is another registered client Y: whatever
    SubjectCheck the JWT profile verifier was built with, the answer never acts for Y - the client
    that authenticates is the one whose key signed - ... *)
-Lemma subject_never_acted_for : forall r e c rg v g pl pv s ec tok act w,
-  model (mkInput r e c rg (PXSub v) g pl pv) = ORes s ec tok act w -> w <> WOther.
+Lemma subject_never_acted_for : forall r e c rg v g pl pv ar s ec tok act w,
+  model (mkInput r e c rg (PXSub v) g pl pv ar) = ORes s ec tok act w -> w <> WOther.
 Proof.
-  intros r e c rg v g pl pv s ec tok act w Hm.
-  pose proof (self_never_other (mkInput r e c rg (PXSub v) g pl pv) eq_refl) as H.
+  intros r e c rg v g pl pv ar s ec tok act w Hm.
+  pose proof (self_never_other (mkInput r e c rg (PXSub v) g pl pv ar) eq_refl) as H.
   rewrite Hm in H. intros ->. exact H.
 Qed.
 
 (* ... and with the default check (SubjectIsIssuer) such an assertion authenticates nobody *)
-Lemma subject_default_refused : forall r e c rg v g pl pv,
+Lemma subject_default_refused : forall r e c rg v g pl pv ar,
   c_sub c = false -> (e = EToken -> g <> GBearer) ->
-  success (model (mkInput r e c rg (PXSub v) g pl pv)) = false.
+  success (model (mkInput r e c rg (PXSub v) g pl pv ar)) = false.
 Proof.
-  intros r e c rg v g pl pv Hc Hg.
+  intros r e c rg v g pl pv ar Hc Hg.
   destruct c as [fpost fpk fref ccc cte cdev cjp csub]; cbn in Hc; subst csub.
   destruct pl as [gp cp ap]; destruct rg as [known meth app gs key].
-  unfold model; cbn [i_endpoint i_cfg i_reg i_pres i_grant i_router i_pl i_prev].
+  unfold model; cbn [i_endpoint i_cfg i_reg i_pres i_grant i_router i_pl i_prev i_art].
   destruct e; [destruct g; try (exfalso; now apply Hg)| | |]; destruct r, meth; cbn; split_goal.
 Qed.
 
 Example subject_nonvacuous :
   let x := mkReg true MPKJWT AWeb all_grants true in
   let sub := mkCfg true true true true true true true true in
-  model (mkInput RProvider EToken sub x (PXSub (mkV MPKJWT true)) GCode std_pl NoPrev) = ORes S4 EInvalidGrant false false WNone
-  /\ model (mkInput RLegacy ERevoke sub x (PXSub (mkV MPKJWT true)) GMissing std_pl NoPrev) = ORes S4 EInvalidClient false false WNone
-  /\ model (mkInput RProvider EToken sub x (PXSub (mkV MPKJWT true)) GCC std_pl NoPrev) = ORes S4 EInvalidClient false false WNone.
+  model (mkInput RProvider EToken sub x (PXSub (mkV MPKJWT true)) GCode std_pl NoPrev ArtOk) = ORes S4 EInvalidGrant false false WNone
+  /\ model (mkInput RLegacy ERevoke sub x (PXSub (mkV MPKJWT true)) GMissing std_pl NoPrev ArtOk) = ORes S4 EInvalidClient false false WNone
+  /\ model (mkInput RProvider EToken sub x (PXSub (mkV MPKJWT true)) GCC std_pl NoPrev ArtOk) = ORes S4 EInvalidClient false false WNone.
 Proof. vm_compute. repeat split; reflexivity. Qed.
+
+(* ---------------- round 11: the state of the token x the credential; audiences of other issuers; history across hosts *)
+
+(* the artefact states the model reads: the token sent to introspection / revocation and the grant assertion of
+   the jwt-bearer grant; every other case of the check carries a live artefact *)
+Definition art_modelled (i : input) : bool :=
+  match i_endpoint i, i_grant i with
+  | EIntrospect, _ | ERevoke, _ | EToken, GBearer => true
+  | _, _ => art_ok (i_art i)
+  end.
+
+(* Introspection and revocation authenticate the caller BEFORE they look at the token: unless the
+   caller is justified (authenticated; revocation: or a public client naming itself) the answer is
+   the same refusal whatever the token is - live, undecodable, unknown.  A caller without a valid
+   credential cannot tell a live token of this provider from garbage. *)
+Lemma unauthenticated_answer_ignores_token : forall r e c rg p g pl pv ar ar',
+  e = EIntrospect \/ e = ERevoke -> names_other p = false ->
+  justified (mkInput r e c rg p g pl pv ar) = false ->
+  model (mkInput r e c rg p g pl pv ar) = model (mkInput r e c rg p g pl pv ar')
+  /\ success (model (mkInput r e c rg p g pl pv ar)) = false.
+Proof.
+  intros r e c rg p g pl pv ar ar' He Hno Hj.
+  assert (Hs : forall a, success (model (mkInput r e c rg p g pl pv a)) = false).
+  { intro a. destruct (success (model (mkInput r e c rg p g pl pv a))) eqn:Hs; [|reflexivity].
+    assert (Hj' : justified (mkInput r e c rg p g pl pv a) = true).
+    { unfold justified; cbn [i_endpoint i_reg i_pres]. destruct He as [-> | ->].
+      - exact (introspect_success_justified (mkInput r EIntrospect c rg p g pl pv a) eq_refl Hno Hs).
+      - exact (revoke_success_justified (mkInput r ERevoke c rg p g pl pv a) eq_refl Hno Hs). }
+    unfold justified in Hj, Hj'; cbn [i_endpoint i_reg i_pres] in Hj, Hj'. destruct He as [-> | ->]; congruence. }
+  split; [|apply Hs].
+  pose proof (Hs ar) as H1. pose proof (Hs ar') as H2. clear Hs Hj.
+  destruct pl as [gp cp ap]; destruct c as [fpost fpk fref ccc cte cdev cjp csub]; destruct rg as [known meth app gs key].
+  revert H1 H2. unfold model; cbn [i_endpoint i_cfg i_reg i_pres i_grant i_router i_pl i_prev i_art].
+  destruct p as [| |[] ?| |[]|[]|[]| | | |[] []|?|?|?|?|?|[] []|?]; try discriminate Hno; clear Hno.
+  all: destruct He as [-> | ->]; destruct r, meth; cbn; split_goal.
+Qed.
+
+(* a client assertion addressed to another issuer - another host, a near miss of the issuer URL, the
+   issuer of another tenant of the same provider instance - authenticates nobody, on any endpoint,
+   whatever the instance served before (in particular X's own valid request at that other tenant) *)
+Lemma foreign_audience_refused : forall r e c rg p g pl pv ar,
+  p = PAssert AWrongAud \/ p = PAssertId AWrongAud -> (e = EToken -> g <> GBearer) ->
+  success (model (mkInput r e c rg p g pl pv ar)) = false.
+Proof.
+  intros r e c rg p g pl pv ar Hp Hg.
+  destruct pl as [gp cp ap]; destruct c as [fpost fpk fref ccc cte cdev cjp csub]; destruct rg as [known meth app gs key].
+  unfold model; cbn [i_endpoint i_cfg i_reg i_pres i_grant i_router i_pl i_prev i_art].
+  destruct Hp as [-> | ->]; (destruct e; [destruct g; try (exfalso; now apply Hg)| | |]); destruct r, meth; cbn; split_goal.
+Qed.
+
+(* the jwt-bearer grant: a grant assertion that is no JWT, is expired, or is addressed to another issuer
+   (another tenant's) yields no token *)
+Lemma bearer_bad_assertion_refused : forall r c rg p pl pv ar,
+  ar <> ArtOk -> success (model (mkInput r EToken c rg p GBearer pl pv ar)) = false.
+Proof.
+  intros r c rg p pl pv ar Ha.
+  destruct pl as [gp cp ap]; destruct c as [fpost fpk fref ccc cte cdev cjp csub]; destruct rg as [known meth app gs key].
+  unfold model; cbn [i_endpoint i_cfg i_reg i_pres i_grant i_router i_pl i_prev i_art].
+  destruct ar; try congruence; destruct r, p; cbn; split_goal.
+Qed.
+
+Example round11_token_state_nonvacuous :
+  let bas := mkReg true MBasic AWeb all_grants true in
+  let pk := mkReg true MPKJWT AWeb all_grants true in
+  (* the inputs of seeded regression C05-V: no / wrong / unknown credential + a token that does not decode *)
+  model (mkInput RProvider EIntrospect all_on bas PNone GMissing std_pl NoPrev ArtJunk) = ORes S4 ENotJSON false false WNone
+  /\ model (mkInput RProvider EIntrospect all_on bas (PBasic SWrong false) GMissing std_pl NoPrev ArtJunk) = ORes S4 ENotJSON false false WNone
+  /\ model (mkInput RProvider EIntrospect all_on bas PIdOnly GMissing std_pl NoPrev ArtJunk) = ORes S4 ENotJSON false false WNone
+  (* the authenticated caller gets active:false for it, active:true for the live token *)
+  /\ model (mkInput RProvider EIntrospect all_on bas (PBasic SRight false) GMissing std_pl NoPrev ArtJunk) = ORes S2 ENone false false WNone
+  /\ model (mkInput RLegacy EIntrospect all_on bas (PBasic SRight false) GMissing std_pl NoPrev ArtGone) = ORes S2 ENone false false WNone
+  /\ model (mkInput RProvider EIntrospect all_on bas (PBasic SRight false) GMissing std_pl NoPrev ArtOk) = ORes S2 ENone false true WSelf
+  (* revocation: 200 and nothing revoked for the authenticated caller, a refusal otherwise *)
+  /\ model (mkInput RLegacy ERevoke all_on bas (PBasic SRight false) GMissing std_pl NoPrev ArtJunk) = ORes S2 ENone false false WNone
+  /\ model (mkInput RProvider ERevoke all_on bas (PBasic SWrong false) GMissing std_pl NoPrev ArtJunk) = ORes S4 EInvalidClient false false WNone
+  (* the input of seeded regression C05-U: an assertion addressed to another tenant, right after X's own request there *)
+  /\ model (mkInput RProvider EToken all_on pk (PAssert AWrongAud) GCode std_pl PrevOtherHost ArtOk) = ORes S4 EServerError false false WNone
+  /\ success (model (mkInput RProvider EToken all_on pk (PAssert AOk) GCode std_pl PrevOtherHost ArtOk)) = true
+  /\ success (model (mkInput RLegacy EToken all_on pk PNone GBearer std_pl PrevOtherHost ArtOk)) = true
+  /\ model (mkInput RLegacy EToken all_on pk PNone GBearer std_pl PrevOtherHost ArtGone) = ORes S4 EInvalidRequest false false WNone.
+Proof. vm_compute. repeat split; reflexivity. Qed.
+
+(* the central statement with the guard under which the model is tied to the code: [art_modelled] (the artefact
+   states the driver generates and the model reads) and the three recorded classes *)
+Lemma spec_model_wf : forall i,
+  art_modelled i = true -> known_gap i = false -> post_gap i = false -> other_gap i = false ->
+  spec i (model i) = true.
+Proof. intros i _. apply spec_model. Qed.
